@@ -155,14 +155,17 @@ class Ctx:
         if 'Error:' in r['out'] and 'No error has been found' not in r['out']:
             print(r['out'][-4000:])
             raise ToolError('TLC case generation reported an error on %s/%s' % (module, cfg))
-        cases = []
+        raw = []
         pat = re.compile(r'^<<"%s", "(.*)">>$' % tag)
         for line in r['out'].splitlines():
             m = pat.match(line.strip())
             if m:
-                s = m.group(1).replace('\\"', '"').replace('\\\\', '\\')
-                c = json.loads(s)
-                cases.extend(transform(c, len(cases)) if transform else [c])
+                raw.append(m.group(1).replace('\\"', '"').replace('\\\\', '\\'))
+        raw.sort()          # TLC prints in a worker-dependent order: make the case list reproducible
+        cases = []
+        for n, s in enumerate(raw):
+            c = json.loads(s)
+            cases.extend(transform(c, n) if transform else [c])
         path = os.path.join(self.out, (name or ('gen_' + cfg.replace('.cfg', ''))) + '.cases.ndjson')
         with open(path, 'w') as f:
             for i, c in enumerate(cases):
